@@ -21,7 +21,7 @@ ASSUMPTIONS = ['step >= 1 or absent (the domain the property states); last() and
                'malformed option strings exclude spellings Python int() accepts beyond [+-]?[0-9]+ (underscores, '
                'non-ASCII digits): counted as class parse-ambiguous-skipped, not asserted either way']
 SHARDS = {'quick': 4, 'thorough': 16}
-REQUIRED_CLASSES = {'slice-nontrivial': 1, 'sample-irregular': 1, 'parse-valid-slice': 1, 'parse-malformed': 1}
+REQUIRED_CLASSES = {'slice-nontrivial': 1, 'sample-irregular': 1, 'parse-valid-slice': 1, 'parse-malformed': 1, 'history-slice': 1, 'history-sample': 1}
 
 
 def _mods():
@@ -335,8 +335,45 @@ def check_option(case, cc):
             cc.dev('parse-denotes', 'wrong-selector-behaviour', 'text %r n=%d' % (text, n))
 
 
+# --------------------------------------------------------------------------------------------
+# One selector object applied to sequences of different lengths (as the converters do for every frame array of a file)
+@st.composite
+def selector_histories(draw):
+    kind = draw(st.sampled_from(['slice', 'slice', 'sample']))
+    lengths = draw(st.lists(st.one_of(st.integers(0, 30), st.integers(0, 2000)), min_size=2, max_size=6))
+    if kind == 'sample':
+        return {'kind': kind, 'size': draw(st.integers(1, 40)), 'lengths': lengths}
+    opt = lambda s_: draw(st.one_of(st.none(), s_))  # noqa
+    return {'kind': kind, 'start': opt(st.integers(-40, 40)), 'stop': opt(st.integers(-40, 40)), 'step': opt(st.integers(1, 7)), 'lengths': lengths}
+
+
+def check_history(case, cc):
+    Slice = _mods()
+    if case['kind'] == 'sample':
+        obj = Slice.Sample(case['size'])
+    else:
+        obj = Slice.Slice(case['start'], case['stop'], case['step'])
+    cc.cls('history-' + case['kind'])
+    cc.nt(len(set(case['lengths'])) >= 2)
+    for k, n in enumerate(case['lengths']):
+        if case['kind'] == 'sample':
+            fresh = Slice.Sample(case['size'])
+            devs = [] if (obj.indices(n), obj.count(n), list(obj.gen_indices(n))) == (fresh.indices(n), fresh.count(n), list(fresh.gen_indices(n))) else [1]
+            exp = fresh.indices(n)
+        else:
+            exp = list(range(n)[case['start']:case['stop']:case['step']])
+            got = (obj.indices(n), obj.count(n), list(obj.gen_indices(n)), obj.first(n) if exp else None)
+            devs = [] if got == (exp, len(exp), exp, exp[0] if exp else None) else [1]
+        if devs:
+            cc.dev('selector-independent-of-earlier-lengths', 'result-depends-on-earlier-length',
+                   '%r applied to lengths %r: at length %d (call %d) indices %r expected %r' % (
+                       {k_: v for k_, v in case.items() if k_ != 'lengths'}, case['lengths'], n, k + 1, obj.indices(n)[:12], exp[:12]))
+            return
+
+
 def parts(tier):
     return [
+        HypPart('selector-history', selector_histories(), check_history, 1500, 30000),
         EnumPart('slice-exhaustive', run_slice_enum, check_slice),
         EnumPart('sample-exhaustive', run_sample_enum, check_sample),
         HypPart('slice-large', large_slices(), check_slice, 1500, 40000),
